@@ -25,6 +25,8 @@ ASSUMPTIONS = [
     "'declares entities' = the DTD internal subset contains an <!ENTITY ...> declaration (general or parameter); a DOCTYPE with "
     "only an external subset reference and no declaration is not an entity declaration and must parse (without fetching)",
     "file and network access is observed through CPython audit events (open, socket.*, urllib.*) raised in the worker process",
+    "a DTD that re-declares one of the five predefined entities (XML 1.0 section 4.6) is not counted as declaring entities: expat "
+    "drops such declarations without reporting or using them, so there is nothing to expand or fetch; either answer is accepted",
 ]
 ALPHABET = "entry point x family x depth x reference site"
 BOUND = {"quick": "4 entry points x 8 families x depth 1..6 x 3 sites", "thorough": "same"}
@@ -32,7 +34,9 @@ EXPECT_OUTCOMES = ["refused", "parsed"]
 
 ENTRY = ["ovf", "vbox", "pvs", "hdd"]
 FAMILIES = ["internal", "laughs", "external-file", "external-http", "param-internal", "param-external", "external-dtd",
-            "doctype-only", "plain"]
+            "doctype-only", "plain", "predefined-redeclared", "predefined-case-variant", "unparsed", "internal-empty"]
+# entity names that case-fold to one of the five predefined names (expat only hard-wires the exact lower-case spellings)
+CASE_VARIANTS = ["AMP", "LT", "Gt", "Apos", "QUOT", "aMp"]
 SITES = ["text", "attribute", "unused"]
 
 
@@ -62,13 +66,17 @@ def run_shard(shard, ctx):
                 run_case({"sequence": [list(x) for x in seq], "samestat": samestat}, ctx)
         return
     for fam in FAMILIES:
-        depths = range(1, 7) if fam in ("laughs", "internal", "param-internal") else (1,)
+        depths = range(1, 7) if fam in ("laughs", "internal", "param-internal", "predefined-case-variant") else (1,)
         for depth in depths:
             for site in SITES:
                 for handle in (("text", "bytes") if shard["entry"] != "hdd" else ("text",)):
                     for pad in ((0, 70000, 300000) if depth == 1 and site != "attribute" else (0,)):
                         run_case({"entry": shard["entry"], "family": fam, "depth": depth, "site": site, "handle": handle,
                                   "pad": pad}, ctx)
+                    if shard["entry"] == "hdd" and depth <= 2:
+                        # benign copies of the descriptor next to it (Parallels keeps DiskDescriptor.xml.Backup)
+                        run_case({"entry": "hdd", "family": fam, "depth": depth, "site": site, "handle": handle, "pad": 0,
+                                  "siblings": True}, ctx)
                     if depth == 1 and site == "text":
                         # what may legally stand between the XML declaration and the DOCTYPE
                         for prolog in ("pi", "comment", "whitespace", "pi+comment", "no-declaration"):
@@ -93,6 +101,16 @@ def _doctype(fam, depth, canary, root):
     if fam == "laughs":
         decls = ['<!ENTITY lol0 "lol">'] + [f'<!ENTITY lol{i} "{"&lol%d;" % (i - 1) * 10}">' for i in range(1, depth + 3)]
         return f"<!DOCTYPE {root} [{''.join(decls)}]>", f"&lol{depth + 2};"
+    if fam == "predefined-redeclared":
+        # XML 1.0 4.6 allows documents to declare the predefined entities; it still is an entity declaration
+        return f'<!DOCTYPE {root} [<!ENTITY lt "&#38;#60;"><!ENTITY amp "&#38;#38;"><!ENTITY quot "&#34;">]>', "&amp;"
+    if fam == "predefined-case-variant":
+        nm = CASE_VARIANTS[(depth - 1) % len(CASE_VARIANTS)]
+        return f'<!DOCTYPE {root} [<!ENTITY {nm} "expanded-{nm}">]>', f"&{nm};"
+    if fam == "unparsed":
+        return f'<!DOCTYPE {root} [<!NOTATION n SYSTEM "n"><!ENTITY pic SYSTEM "file://{canary}" NDATA n>]>', None
+    if fam == "internal-empty":
+        return f'<!DOCTYPE {root} [<!ENTITY e "">]>', "&e;"
     if fam == "external-file":
         return f'<!DOCTYPE {root} [<!ENTITY xxe SYSTEM "file://{canary}">]>', "&xxe;"
     if fam == "external-http":
@@ -240,7 +258,7 @@ def run_case(case, ctx):
     ctx.executions += 1
     ctx.model(case)
     ctx.sample(case)
-    declares = fam not in ("plain", "doctype-only", "external-dtd")
+    declares = fam not in ("plain", "doctype-only", "external-dtd", "predefined-redeclared")
     if declares:
         ctx.nontrivial += 1
     with scratch_dir() as d:
@@ -263,6 +281,12 @@ def run_case(case, ctx):
         if entry == "hdd":
             hd = os.path.join(d, "x.hdd")
             os.makedirs(hd, exist_ok=True)
+            if case.get("siblings"):
+                benign, _ = _document("hdd", "plain", 1, "text", canary)
+                for nm in ("DiskDescriptor.xml.Backup", "DiskDescriptor.xml.bak", "DiskDescriptor.xml~", "DiskDescriptor.xml.orig",
+                           "diskdescriptor.xml.backup", "DiskDescriptor.Backup.xml"):
+                    with open(os.path.join(hd, nm), "w") as f:
+                        f.write(benign)
         ctx.transitions += 1
         ctx.states += 1
         result = exc = None
@@ -285,6 +309,14 @@ def run_case(case, ctx):
                               {"result": repr(result)[:200], "depth": depth})
                 return
             ctx.outcome("refused")
+        elif fam == "predefined-redeclared":
+            # expat discards declarations of the five predefined names without reporting them (nothing is ever expanded to
+            # anything but the predefined character): refusing and parsing are both acceptable, expanding is not
+            if exc is None and any("&#" in str(x) or len(str(x)) > 60 for x in (result or [])):
+                ctx.violation(case, {"subject": f"xml.{entry}", "kind": "predefined-entity-expanded", "family": fam},
+                              {"result": repr(result)[:200]})
+                return
+            ctx.outcome("refused" if exc is not None else "parsed")
         elif case.get("encoding") in ("gbk", "shift_jis", "big5", "euc-kr") and exc is not None:
             ctx.outcome("refused")  # the XML parser does not support multi-byte legacy encodings at all: refusing is fine
         else:
